@@ -62,6 +62,10 @@ def chains(tier, uid, tty):
         for combo in itertools.product(names, repeat=n):
             for st in ('plain', 'trailing', 'doubled', 'leading'):
                 out.append((combo, st, style([E[c][0] for c in combo], st)))
+    if tier == 'thorough':
+        red = ['noop', 'only_root', 'only_uid:other', 'exclude_uid:me', 'exclude_uid:other', 'only_tty', 'xso:colon', 'nosuch:arg', 'empty']
+        for combo in itertools.product(red, repeat=4):
+            out.append((combo, 'plain', style([E[c][0] for c in combo], 'plain')))
     # single drop at every position of chains p^i d p^j, i+j <= 19
     P, D = b'only_uid:%d' % uid, b'exclude_uid:%d' % uid
     for total in ((5, 12, 20) if tier == 'quick' else range(2, 21)):
